@@ -120,10 +120,24 @@ func init() {
 			var d map[string]json.RawMessage
 			json.Unmarshal(drv, &d)
 			if why := nonTermination(real); why != "" {
-				if _, ok := d["outOfFuel"]; !ok {
+				if _, ok := d["outOfFuel"]; ok {
+					return core.Fail("hang@alias-self-merge", "alias expansion does not return on this document ("+why+"), as the model predicts")
+				}
+				// the model of resolveReset terminates here: confirm in isolation, then look at what follows resolveReset
+				if again := confirmNonTermination("c01reset", args, 20*time.Second); again != nil && nonTermination(again) == "" {
+					real = again
+				} else {
+					var a resetArgs
+					json.Unmarshal(args, &a)
+					for _, n := range a.Nodes {
+						if n.Tag == "!override" {
+							// resolveReset returns an `!override` node without descending into it; an alias to it from inside its
+							// own content is replaced by a direct pointer, and yaml.v3 then decodes a cyclic tree forever
+							return core.Fail("hang@alias-override-cycle", "resolveReset terminates ("+string(drv)+") but the tree it hands to yaml.v3 is cyclic: Decode does not return ("+why+")")
+						}
+					}
 					return core.Fail("hang@reset", "alias expansion does not return on this document ("+why+") although the model answers "+string(drv))
 				}
-				return core.Fail("hang@alias-self-merge", "alias expansion does not return on this document ("+why+"), as the model predicts")
 			}
 			if v := core.CrashVerdict(real); v != nil {
 				return v
